@@ -135,6 +135,8 @@ func init() {
 			Run: func(P *Program, R *Report) { verifiedMemoRule(P, R) }},
 		Rule{ID: "C10.l", Explain: "no verification failure of an update, accumulator or event list is dropped (revocation/api.go) (same rule as C08.g: the error a call returns has a use - a nil test or a return - before it is overwritten, shadowed or left behind).",
 			Run: func(P *Program, R *Report) { errorResultsUsedRule(P, R, "C10.l", inFiles(P, "revocation/api.go"), nil, 15) }},
+		Rule{ID: "C10.m", Explain: "an update is authenticated every time it is decoded: the decoders of Update and EventList start from a zero-valued intermediate value (same rule as C18.n) - a recycled SignedAccumulator keeps the accumulator it verified before and UnmarshalVerify returns that memo without looking at the new signature, counter or data.",
+			Run: func(P *Program, R *Report) { freshDecodeTargetRule(P, R, "C10.m") }},
 	)
 }
 
